@@ -83,7 +83,17 @@ func parseFlags() (*flag.FlagSet, error) {
 	fs.BoolVar(&conf.splitrequests, "splitrequests", false, "split the request array to multiple requests.\n"+
 		"this can help if the server sends a timeout on big requests")
 	if err := fs.Parse(os.Args[1:]); err != nil {
-		return fs, fmt.Errorf("%w%s", ErrFlagError, err)
+		var pathErr *os.PathError
+		if !errors.As(err, &pathErr) {
+			// already reported by the flag package
+			return fs, fmt.Errorf("%w%s", ErrFlagError, err)
+		}
+		// the config file could not be read: only an error if it was asked for explicitly
+		explicit := false
+		fs.Visit(func(f *flag.Flag) { explicit = explicit || f.Name == flag.DefaultConfigFlagname })
+		if explicit || !errors.Is(err, os.ErrNotExist) {
+			return fs, fmt.Errorf("could not read config file: %w", err)
+		}
 	}
 	return checkFlags(fs)
 }
